@@ -140,6 +140,15 @@ def units(tier):
     for X in ('corr32', 'zero_last32'):
         for j in (0, 1):
             us.append(Unit('C10/S/multitask_step[X=%s,j=%d]' % (X, j), ST.u_multitask_step, dict(X=X, j=j, T=2), wall_s=90))
+    # group epoch: CSC kernel == dense kernel when both are given the same block constants (the constants themselves come
+    # from a randomised power method on CSC input and are outside the term-for-term claim)
+    from checks import driver as DRV
+    for lay, X in (('single', 'corr32'), ('rev', 'zero_last32'), ('pair', 'gen32')):
+        for g in range(len(DRV.GROUP_LAYOUTS[lay])):
+            if q and lay == 'pair' and g:
+                continue
+            us.append(Unit('C10/S/group_step_csc[QuadraticGroup,layout=%s,X=%s,g=%d]' % (lay, X, g), ST.u_group_step,
+                           dict(datafit='QuadraticGroup', layout=lay, X=X, g=g, sparse_epoch=True), wall_s=90, timeout_ms=8000))
     runs = []
     for (df, pen), X, fi, strat in itertools.product([('Quadratic', 'L1'), ('Quadratic', 'WeightedL1'), ('WeightedQuadratic', 'L1')],
                                                      ['corr32', 'zero_last32'], (False, True), ('subdiff', 'fixpoint')):
